@@ -1,13 +1,15 @@
 #!/bin/sh
 # usage: lib/try_mutant_wt.sh <ID> <patch.diff> <worktree> [--tier T]
 # like try_mutant.sh but applies the change in a scratch worktree and points the check at it
-# (HOLOPY_REPO), so that /repo itself is never touched.
+# (HOLOPY_REPO); evidence and replays of the trial go to /tmp/mut_out (VERIF_OUT), so neither
+# /repo nor the evidence about /repo is touched.
 id="$1"; patch="$2"; wt="$3"; shift 3
 cd /verif || exit 2
 git -C "$wt" checkout -q -- . ; git -C "$wt" checkout -q --detach main 2>/dev/null
 git -C "$wt" apply "$patch" || { echo "patch does not apply"; exit 2; }
-HOLOPY_REPO="$wt" ./check "$id" "$@" > /tmp/try_$id.log 2>&1; rc=$?
+tag=$(basename $(dirname "$patch"))
+VERIF_OUT=/tmp/mut_out/$tag HOLOPY_REPO="$wt" ./check "$id" "$@" > /tmp/try_$tag.log 2>&1; rc=$?
 git -C "$wt" checkout -q -- .
 echo "mutant $patch -> check $id rc=$rc"
-grep "violations:" /tmp/try_$id.log | head -5
-tail -1 /tmp/try_$id.log
+grep "violations:" /tmp/try_$tag.log | head -5
+tail -1 /tmp/try_$tag.log
